@@ -19,17 +19,20 @@ RULE = ("case = network template (T1 filter->SIMP->stiffness->LinSolve->complian
         "StaticCondensation; T6 dense matrix function->LinSolve/Inverse/EigenSolve; T7 filter->aggregation with active "
         "set/undamped scaling) + options + history of 5-40 ops respecting response-before-sensitivity. Oracle: after the "
         "history, reset->response->seed->sensitivity on the used objects equals a freshly built identical network "
-        "evaluated once (1e-9 direct; 1e-5 where LDAS reconstruction/CG/ARPACK is involved); after every reset no "
+        "evaluated once (1e-9 direct; 1e-5 where LDAS reconstruction/CG/ARPACK is involved) -- the same comparison is made for "
+        "up to six sensitivity passes inside the history that directly follow a full reset (with or without a new "
+        "response in between); after every reset no "
         "sensitivity is left; sensitivity() without seed changes nothing. Non-trivial = prefix has >=2 responses with "
         "different designs and >=1 sensitivity.")
 ASSUMPTIONS = [
     "documented memories are excluded by construction: plain Scaling, damped AggScaling, writer counters",
     "designs keep matrices in one class per template (symmetric FE matrices; dense symmetric/general per option)",
-    "sparse EigenSolve is seeded on eigenvalues only (eigenvector seeds hit the known finding C01-eigsparse-eigvec-"
-    "singular-factor and ARPACK's random start vector makes eigenvector signs/phases history dependent by design)",
+    "sparse EigenSolve (T2) is seeded on eigenvalues and on per-mode eigenvector functionals; eigenvector comparisons are "
+    "skipped (label eig_close_skipped) when a returned eigenvalue is not separated (2e-2 relative) from the rest of the "
+    "pencil's spectrum; the singular-factorisation raise of _sparse_eigvec_sens is the known finding recorded for C01",
 ]
 
-TEMPLATES = ["T1", "T1", "T2", "T3", "T4", "T5", "T6", "T7"]
+TEMPLATES = ["T1", "T1", "T2", "T2", "T3", "T4", "T5", "T6", "T7"]
 
 
 def budget(tier):
@@ -59,18 +62,30 @@ def strategy(tier):
     })
     # histories are built from optimisation-loop-like rounds (set, response, seeds, sensitivity, reset) with optional
     # parts, plus free random ops in between, so that most histories contain several complete cycles
-    seed_op = st.fixed_dictionaries({"op": st.just("seed"), "j": st.integers(0, 3), "w": st.integers(0, 2)})
-    rnd_round = st.tuples(
-        st.lists(op, max_size=2),
-        st.one_of(st.none(), st.fixed_dictionaries({"op": st.just("set"), "k": st.integers(0, 3)}),
-                  st.fixed_dictionaries({"op": st.just("set"), "k": st.integers(0, 3)}),
-                  st.fixed_dictionaries({"op": st.just("set"), "k": st.integers(0, 3)})),
+    seed_op = st.fixed_dictionaries({"op": st.just("seed"), "j": st.integers(0, 5), "w": st.integers(0, 2)})
+    set_op = st.fixed_dictionaries({"op": st.just("set"), "k": st.integers(0, 3)})
+    # round A: a full optimisation-loop cycle (set, response, seeds, sensitivity, reset), each part optional
+    round_a = st.tuples(
+        st.one_of(st.none(), set_op, set_op, set_op),
         st.sampled_from([[{"op": "response"}], [{"op": "response"}], [{"op": "response"}, {"op": "response"}], []]),
         st.lists(seed_op, max_size=2),
         st.sampled_from([[{"op": "sens"}], [{"op": "sens"}], [{"op": "sens2"}], []]),
         st.sampled_from([[{"op": "reset"}], [{"op": "reset"}], [], [{"op": "reset_mod", "i": 1}]]),
-    ).map(lambda t: list(t[0]) + ([t[1]] if t[1] else []) + list(t[2]) + list(t[3]) + list(t[4]) + list(t[5]))
-    ops = st.lists(rnd_round, min_size=2, max_size=8 if big else 5).map(lambda rr: [o for r in rr for o in r][:60])
+    ).map(lambda t: ([t[0]] if t[0] else []) + list(t[1]) + list(t[2]) + list(t[3]) + list(t[4]))
+    # round B: another seed on the same response: reset, seeds, sensitivity -- no new response in between
+    round_b = st.tuples(st.lists(seed_op, min_size=1, max_size=2), st.sampled_from(["sens", "sens", "sens2"])
+                        ).map(lambda t: [{"op": "reset"}] + list(t[0]) + [{"op": t[1]}])
+    # round C: free random ops
+    round_c = st.lists(op, min_size=1, max_size=3)
+    # round D: alternate the seeded output across designs (per-output caches): seed j on the current response, then a new
+    # design seeded on another output only, then output j again without a new response
+    round_d = st.tuples(st.integers(0, 5), st.integers(0, 5), st.integers(0, 3), st.integers(0, 2)).map(
+        lambda t: [{"op": "response"}, {"op": "reset"}, {"op": "seed", "j": t[0], "w": t[3]}, {"op": "sens"},
+                   {"op": "reset"}, {"op": "set", "k": t[2]}, {"op": "response"},
+                   {"op": "seed", "j": t[1], "w": t[3]}, {"op": "sens"},
+                   {"op": "reset"}, {"op": "seed", "j": t[0], "w": t[3]}, {"op": "sens"}])
+    rnd_round = st.one_of(round_a, round_a, round_a, round_b, round_b, round_c, round_d)
+    ops = st.lists(rnd_round, min_size=2, max_size=9 if big else 6).map(lambda rr: [o for r in rr for o in r][:90])
     return st.fixed_dictionaries({"template": st.sampled_from(TEMPLATES), "opts": opts, "ops": ops,
                                   "payload_seed": SEED})
 
@@ -192,7 +207,16 @@ def build(case):
         mods.append(pym.EigenSolve(ins, [lam, Q], **kw))
         wts = S("wts", rng.uniform(0.5, 1.5, o["nmodes"]))
         mods.append(pym.EinSum([lam, wts], g, expression="i,i->"))
-        return Net(pym.Network(mods), [x], [g, lam], designs, 1e-6, labels + ["shift" if o["sigma"] else "noshift"])
+        outs = []
+        # one scalar functional per mode on the eigenvector: g_j = c_j . Q[:, j]  (per-mode eigenvector seeds)
+        for j in range(o["nmodes"]):
+            cj, gj = S(f"c{j}", rng.uniform(0.5, 1.5, dom.nnodes)), S(f"gq{j}")
+            mods.append(pym.EinSum([Q[:, j], cj], gj, expression="i,i->"))
+            outs.append(gj)
+        outs += [g, lam]
+        net = Net(pym.Network(mods), [x], outs, designs, 1e-5, labels + ["shift" if o["sigma"] else "noshift"])
+        net.eig = (K, M if o["gen"] else None, lam, o["nmodes"])
+        return net
     if T == "T3":
         dom = _domain(o)
         designs = [rng.uniform(0.05, 0.95, dom.nel) for _ in range(4)]
@@ -342,11 +366,35 @@ def close(a, b, tol):
     return r <= tol, r
 
 
+def eig_well_separated(net):
+    """T2 only: eigenvector sensitivities are defined (and comparable) only for simple, separated eigenvalues."""
+    if not hasattr(net, "eig"):
+        return True
+    K, M, lam, k = net.eig
+    import scipy.linalg as sl
+    Kd = K.state.toarray()
+    Md = np.eye(Kd.shape[0]) if M is None else M.state.toarray()
+    w = np.sort(sl.eigh(Kd, Md, eigvals_only=True))
+    got = np.sort(np.real(np.asarray(lam.state)))
+    # gaps between each returned eigenvalue and every other eigenvalue of the pencil
+    spread = max(np.abs(w).max(), 1e-300)
+    for v in got:
+        d = np.sort(np.abs(w - v))
+        if len(d) > 1 and d[1] < 2e-2 * spread:
+            return False
+    return True
+
+
+def is_singular_Z(e):
+    fns = [f.name for f in traceback.extract_tb(e.__traceback__)]
+    return "_sparse_eigvec_sens" in fns and "update" in fns and "singular" in str(e).lower()
+
+
 def check_case(case):
     labels, V = [], []
 
-    def bad(kind, detail):
-        V.append(viol(f"C03:{kind}", f"{detail} | case={case}"))
+    def bad(kind, detail, **kw):
+        V.append(viol(f"C03:{kind}", f"{detail} | case={case}", **kw))
 
     def guarded(fn, what):
         try:
@@ -354,7 +402,12 @@ def check_case(case):
             return True
         except Exception as e:
             if from_pymoto(e):
-                bad(f"raises:{what}:{case['template']}:{type(e).__name__}@{exc_site(e)}", traceback.format_exc()[-600:])
+                if is_singular_Z(e):
+                    bad("raises:sensitivity:EigenSolve:singular_shifted_matrix", traceback.format_exc()[-600:],
+                        sig={"singular_factorisation": True, "via": "_sparse_eigvec_sens/update"})
+                else:
+                    bad(f"raises:{what}:{case['template']}:{type(e).__name__}@{exc_site(e)}",
+                        traceback.format_exc()[-600:])
                 return False
             raise
 
@@ -367,11 +420,61 @@ def check_case(case):
         raise
     labels += used.labels
     sigs = used.all_signals()
+    tol = used.tol
+    nout = len(used.outputs)
+
+    def fresh_eval(k, seeds):
+        """Freshly constructed identical network, evaluated once on design k with the given {output index: (j, w)}."""
+        net = build(case)
+        net.sources[0].state = net.designs[k].copy()
+        if not guarded(net.net.response, "response"):
+            return None
+        for jo, (j, w) in seeds.items():
+            out, v = seed_value(case, net, j, w)
+            out.sensitivity = v
+        if not guarded(net.net.sensitivity, "sensitivity"):
+            return None
+        sg = net.all_signals()
+        return ([dense(s.state) for s in sg], [dense(s.sensitivity) for s in net.sources], [s.tag for s in sg])
+
+    def compare_with_fresh(k, seeds, where):
+        """Compare the used network (just after sensitivity()) with a fresh evaluation."""
+        if hasattr(used, "eig") and any(jo < used.eig[3] for jo in seeds) and not eig_well_separated(used):
+            labels.append("eig_close_skipped")
+            return True
+        ref = fresh_eval(k, seeds)
+        if ref is None:
+            return False
+        st_f, se_f, tags = ref
+        st_u = [dense(s.state) for s in sigs]
+        se_u = [dense(s.sensitivity) for s in used.sources]
+        for tg, a, b in zip(tags, st_u, st_f):
+            ok, r = close(a, b, tol)
+            if not ok:
+                bad(f"state_differs:{case['template']}:{tg}", f"{where}: state of '{tg}' differs from the fresh network "
+                                                               f"(rel {r:.3e})")
+                return False
+        for i, (a, b) in enumerate(zip(se_u, se_f)):
+            ok, r = close(a, b, tol)
+            if not ok:
+                bad(f"sensitivity_differs:{case['template']}:src{i}", f"{where}: source sensitivity {i} differs from the "
+                                                                     f"fresh network (rel {r:.3e})")
+                return False
+        return True
+
     cur_k = 0
     responded = False        # a response happened since the last input change
+    clean = True             # no sensitivity()/partial reset since the last full reset (or construction)
+    seeds = {}               # seeds set since the last full reset: output index -> (j, w)
     designs_seen = set()
-    nresp = 0
-    for op in case["ops"]:
+    ncompared = 0
+    ops = list(case["ops"])
+    # final cycle: reset -> set final design -> response -> seeds -> sensitivity (compared like any other)
+    fk = case["opts"]["final_k"]
+    ops += [{"op": "reset"}, {"op": "set", "k": fk}, {"op": "response"}]
+    ops += [{"op": "seed", "j": j, "w": 7 + jj} for jj, j in enumerate(case["opts"]["final_seeds"])]
+    ops += [{"op": "sens", "final": True}]
+    for op in ops:
         t = op["op"]
         if t == "set":
             cur_k = op["k"]
@@ -381,71 +484,47 @@ def check_case(case):
             if not guarded(used.net.response, "response"):
                 return labels, V
             responded = True
-            nresp += 1
             designs_seen.add(cur_k)
         elif t == "seed":
             if responded:
                 out, v = seed_value(case, used, op["j"], op["w"])
                 out.sensitivity = v
+                seeds[op["j"] % nout] = (op["j"], op["w"])
         elif t in ("sens", "sens2"):
             if responded:
                 any_seed = any(s.sensitivity is not None for s in sigs)
                 before = [adj.snapshot(s.sensitivity) for s in sigs] if not any_seed else None
-                for _ in range(2 if t == "sens2" else 1):
-                    if not guarded(used.net.sensitivity, "sensitivity"):
-                        return labels, V
-                labels.append("sens_in_prefix")
+                if not guarded(used.net.sensitivity, "sensitivity"):
+                    return labels, V
+                if not op.get("final"):
+                    labels.append("sens_in_prefix")
                 if before is not None and [adj.snapshot(s.sensitivity) for s in sigs] != before:
                     bad("sensitivity_without_seed_changed_something", "a sensitivity appeared without any seed")
+                    return labels, V
+                # a sensitivity pass that directly follows a full reset (seeds set after it) must equal a fresh network
+                if clean and seeds and (op.get("final") or ncompared < 6):
+                    ncompared += 1
+                    labels.append("compared_final" if op.get("final") else "compared_mid_history")
+                    if not compare_with_fresh(cur_k, dict(seeds), "final cycle" if op.get("final") else
+                                              "sensitivity pass after reset (no new response)" ):
+                        return labels, V
+                clean = False
+                if t == "sens2":
+                    if not guarded(used.net.sensitivity, "sensitivity"):
+                        return labels, V
         elif t == "reset":
             if not guarded(used.net.reset, "reset"):
                 return labels, V
             left = [s.tag for s in sigs if s.sensitivity is not None and np.any(adj.to_dense(s.sensitivity) != 0)]
             if left:
                 bad("reset_leaves_sensitivity", f"signals {left} keep a sensitivity after Network.reset()")
+                return labels, V
+            clean, seeds = True, {}
         elif t == "reset_mod":
             mods = used.net.mods
             if not guarded(mods[op["i"] % len(mods)].reset, "reset"):
                 return labels, V
-    if len(designs_seen) >= 2:
-        labels.append("two_designs")
-    if V:
-        return labels, V
-
-    # ---------------- final cycle on the used objects and on a fresh network
-    fk = case["opts"]["final_k"]
-    fresh = build(case)
-    results = []
-    for net in (used, fresh):
-        if not guarded(net.net.reset, "reset"):
-            return labels, V
-        net.sources[0].state = net.designs[fk].copy()
-        if not guarded(net.net.response, "response"):
-            return labels, V
-        seeded = set()
-        for jj, j in enumerate(case["opts"]["final_seeds"]):
-            if j % len(net.outputs) in seeded:
-                continue
-            seeded.add(j % len(net.outputs))
-            out, v = seed_value(case, net, j, 7 + jj)
-            out.sensitivity = v
-        if not guarded(net.net.sensitivity, "sensitivity"):
-            return labels, V
-        sg = net.all_signals()
-        results.append(([dense(s.state) for s in sg], [dense(s.sensitivity) for s in net.sources], [s.tag for s in sg]))
-    (st_u, se_u, tags), (st_f, se_f, _) = results
-    tol = used.tol
-    for tg, a, b in zip(tags, st_u, st_f):
-        if tg == "Q" and case["template"] == "T2":
-            continue   # ARPACK start vector: eigenvector sign/normalisation path is not history-free by design
-        ok, r = close(a, b, tol)
-        if not ok:
-            bad(f"state_differs:{case['template']}:{tg}", f"state of '{tg}' differs from the fresh network (rel {r:.3e})")
-            break
-    for i, (a, b) in enumerate(zip(se_u, se_f)):
-        ok, r = close(a, b, tol)
-        if not ok:
-            bad(f"sensitivity_differs:{case['template']}:src{i}", f"source sensitivity {i} differs from the fresh "
-                                                                 f"network (rel {r:.3e})")
-            break
+            clean = False
+        if len(designs_seen) >= 2 and "two_designs" not in labels and not op.get("final"):
+            labels.append("two_designs")
     return labels, V
